@@ -214,7 +214,7 @@ func main() {
 		return
 	}
 
-	timeoutS := 10
+	timeoutS := 15
 	thorough := *tier == "thorough"
 	if thorough {
 		timeoutS = 60
